@@ -82,3 +82,7 @@ package reader
 //@   ensures result == r.count
 
 //@ lemma accounting(r *Reader): r != nil && inv(r) ==> r.count + len(r.data) == len(r.base)
+
+// >>> field snapshots (govc -gen-names)
+//@ fields Reader data count
+// <<< field snapshots
